@@ -7,6 +7,14 @@ CLAIMED = {
          "Seeded search over packet sequences x transport segmentation laws x writer/reader interleavings with the real StreamProcessor on both ends of a simulated link; oracle is sequence equality with the generator's list plus consumed-byte accounting. Sampling, not proof.",
          "trusts the simnet stream/message Read contracts as models of TCP/QUIC/KCP/WebSocket; bodies up to 16 MiB only in the thorough tier",
          "deterministic simulation: seeded scheduler + simulated transport with segmentation faults, reference-list oracle"),
+ "C03": ("exploration", "DESIGN.md §4 C03",
+         "Seeded search over handshake histories (first-connect, phase-1/phase-2 with valid, stale, foreign-key, replayed and garbage responses, control/tunnel type, several connections and addresses, bans, blacklisting, credential expiry) against a fully wired real server node on the simulated network and clock; after every reply the server-side authentication state and the by-client lookup are compared with a reference state machine that computes HMACs with the standard library.",
+         "bans caused by earlier failures are read from the real protector (C18 judges them); credential expiry is induced by moving the stored ExpiresAt into the past through the real repository",
+         "deterministic simulation: wired node on simulated transport/clock, scripted multi-connection protocol histories, reference state machine oracle"),
+ "C13": ("exploration", "DESIGN.md §4 C13",
+         "Seeded histories of all storage operations with TTLs and simulated clock advances: real memory backend vs a reference map written from the interface contract; real memory vs real Redis backend (miniredis in the bubble over net.Pipe) on the shapes the repositories use; concurrent clients interleaved at statement granularity inside the memory backend, histories checked for linearizability with porcupine.",
+         "miniredis stands in for a Redis server (real command semantics incl. Lua); lifetimes chosen by a backend for implicitly created keys are not compared; expiry-boundary instants are never generated",
+         "deterministic simulation: seeded scheduler at statement granularity + simulated clock; reference-model and cross-backend differential oracles; porcupine linearizability check"),
 }
 props=[json.loads(l) for l in open('/verif/properties.jsonl')]
 checks=[]
